@@ -563,6 +563,22 @@ var variants = []variant{
 	// comment markers that are WORDS (batch files, m4): they survive normalisation, the text is a
 	// few percent longer than the license and never takes the exact-match shortcut
 	{"rem", perLine("REM ")},
+	// decoration that makes the raw text much longer than its normalised form: a box comment padded
+	// to a right-hand border, and a deeply indented comment block
+	{"box", func(s string) string {
+		ls := strings.Split(s, "\n")
+		w := 0
+		for _, l := range ls {
+			if len(l) > w {
+				w = len(l)
+			}
+		}
+		for i, l := range ls {
+			ls[i] = "/* " + l + strings.Repeat(" ", w-len(l)) + " */"
+		}
+		return strings.Join(ls, "\n")
+	}},
+	{"indent24", perLine(strings.Repeat(" ", 24) + "// ")},
 	{"lower", strings.ToLower},
 	{"reflow", func(s string) string { return strings.Join(strings.Fields(s), "  \n ") }},
 	{"hash", perLine("# ")},
@@ -575,9 +591,9 @@ func c16Corpus(c *vrep.Ctx) {
 		panic("c16 needs the v1 instrumentation profile")
 	}
 	files := licenseFiles()
-	nv := c.Pick(5, len(variants))
+	nv := c.Pick(7, len(variants))
 	l := fullLicense()
-	c.R.Rule = fmt.Sprintf("every one of the %d shipped license files x %d presentation variants (identity, upper, // decoration, whole text re-flowed onto one line, REM decoration; thorough adds lower, one word per line, # and * decoration, dnl decoration) against the License classifier built from the full archive: NearestMatch must return the file's canonical name (file name minus .txt and .header) with confidence >= %v; finite and complete", len(files), nv, lc.DefaultConfidenceThreshold)
+	c.R.Rule = fmt.Sprintf("every one of the %d shipped license files x %d presentation variants (identity, upper, // decoration, whole text re-flowed onto one line, REM decoration, box comment padded to a right-hand border, 24 blanks + // ; thorough adds lower, one word per line, # and * decoration, dnl decoration) against the License classifier built from the full archive: NearestMatch must return the file's canonical name (file name minus .txt and .header) with confidence >= %v; finite and complete", len(files), nv, lc.DefaultConfidenceThreshold)
 	c.Bound("files", len(files))
 	c.Bound("variants", nv)
 	// v1 compares character by character against every known text of similar length; with the
